@@ -218,7 +218,7 @@ def run_shard(spec, emit):
     tier, seed, shard = spec["tier"], spec["seed"], spec["shard"]
     rng = random.Random(f"{seed}:C17:{shard}")
     n_docs = 250 if tier == "quick" else 3000
-    deadline = time.monotonic() + (80 if tier == "quick" else 2400)
+    deadline = time.monotonic() + (80 if tier == "quick" else 300)
     samples = 0
     engine_budget = 1 if tier == "quick" else 6
     for d in range(n_docs):
